@@ -59,7 +59,15 @@ def discover_labeller(prog):
     if len(targets) != 1 or n == 0:
         raise Inconclusive('R-CTL-1', 'labeller not unique: %r' % targets,
                            f.where())
-    return f, targets.pop(), memo_ok, why
+    lab = targets.pop()
+    if lab.owner is not None or len(lab.node.args.args) != 3:
+        # the rules below drive a labelling *function* (structure, formula,
+        # memo); another organisation (a labeller object, a visitor) is
+        # outside the fragment
+        raise Inconclusive('R-CTL-1', 'CTL.modelcheck returns through %s, '
+                           'which is not a function of (structure, formula, '
+                           'memo)' % lab.short(), f.where())
+    return f, lab, memo_ok, why
 
 
 class DispatchHooks(TemplateHooks, GraphHooks):
@@ -123,6 +131,7 @@ def rule_ctl1(prog, labeller):
     r = RuleResult('R-CTL-1', 'dispatch closure of the CTL labeller '
                    '(every shape handled directly or rewritten once)')
     table = {}
+    others = []
     K = Sym('K', ('inst', prog.cls('kripke.Kripke')))
     for (key, val, lhs) in shapes(prog):
         hooks = DispatchHooks(prog, labeller)
@@ -161,6 +170,13 @@ def rule_ctl1(prog, labeller):
                                            if k[0] == 'rewrite' else ''))
                              for k in kinds])
         r.inst(**desc)
+        if any(k[0] == 'other' for k in kinds):
+            # the labeller hands this shape to something that is not
+            # recognised (a computed handler, a decorated function ...):
+            # outside the fragment, no verdict for this shape
+            others.append('%s -> %s' % (key, [k[1][:80] for k in kinds
+                                               if k[0] == 'other']))
+            continue
         if len(kinds) != 1 or kinds[0][0] in ('raise', 'other'):
             r.fail(Finding(
                 PROP, 'R-CTL-1', labeller.where(), labeller.short(),
@@ -171,7 +187,7 @@ def rule_ctl1(prog, labeller):
         r.ok()
     # closure
     for key, kinds in table.items():
-        if len(kinds) != 1:
+        if len(kinds) != 1 or any(k[0] == 'other' for k in kinds):
             continue
         k = kinds[0]
         if key in RESTRICTED_SHAPES and k[0] not in ('direct', 'inline'):
@@ -187,7 +203,9 @@ def rule_ctl1(prog, labeller):
             tgt = table.get(tk)
             ok = tgt is not None and len(tgt) == 1 and \
                 tgt[0][0] in ('direct', 'inline')
-            if not ok:
+            if tgt is not None and any(x[0] == 'other' for x in tgt):
+                pass
+            elif not ok:
                 r.fail(Finding(
                     PROP, 'R-CTL-1', labeller.where(), labeller.short(),
                     'rewrite-not-closed:%s->%s' % (key, tk),
@@ -205,6 +223,12 @@ def rule_ctl1(prog, labeller):
             else:
                 r.ok()
     floor('R-CTL-1', 'shapes', len(table), 19)
+    if others:
+        e = Inconclusive('R-CTL-1', 'shapes dispatched to something that is '
+                         'not recognised: %s' % '; '.join(others[:3]),
+                         labeller.where())
+        e.partial = (r, table)
+        raise e
     return r, table
 
 
